@@ -197,6 +197,10 @@ func init() {
 				Bound: "structured families: chains/ladders with 60-70 layers, K(a,b) up to 6x6, binary trees, stars, 400-node chain x {greedy,dfs} x {ns,lp} x {sink,valign,bk} (+ ns positioner up to 40 nodes: documented as time-intensive beyond a few dozen nodes) x {polyline,ortho} x {fixed,per-node}"},
 			{Name: "macro-3", Space: spaceMacro(3, false), Eval: stdEval("C01", staticGrid(gridSpec{P1: allP1, P2: allP2, P4: []int{0, 4}, P5: []int{2}, SZ: []int{2}}.list()), noop),
 				Bound: "every graph built by <=3 gadget insertions (path, fan-in/out of 2..3, 3-cycle, 4-cycle, diamond, long-edge triangle) at any node: shapes with up to 13 edges x {greedy,dfs} x {ns,lp} x {sink,bk} x polyline"},
+			{Name: "macro-3-doubled", Space: spaceDoubled(spaceMacro(3, false)), Eval: stdEval("C01", staticGrid(gridSpec{P1: []int{0}, P2: []int{0}, P4: []int{0}, P5: []int{2}, SZ: []int{2}}.list()), noop),
+				Bound: "every graph built by <=3 gadget insertions with ONE edge doubled (parallel copy next to it / at the end of the list, antiparallel copy at the end): multi-edges between wide adjacent layers x default algorithms"},
+			{Name: "layered-doubled", Space: spaceDoubled(spaceConcat(spaceLayered([]int{2, 3, 2}, true), spaceLayered([]int{3, 2, 3}, true), spaceLayered([]int{2, 2, 2, 2}, true))), Eval: stdEval("C01", staticGrid(gridSpec{P1: []int{0}, P2: []int{0}, P4: []int{0}, P5: []int{2}, SZ: []int{1}}.list()), noop),
+				Bound: "every connected proper layered graph on 2+3+2, 3+2+3 and 2+2+2+2 nodes with ONE edge doubled (parallel next to it / at the end, antiparallel at the end): multi-edges between two wide layers next to another wide layer pair x default algorithms"},
 			{Name: "macro-2-edges", Space: spaceMacro(2, true), Eval: stdEval("C01", staticGrid(gridSpec{P1: allP1, P2: allP2, P4: []int{0, 1, 3, 4}, P5: []int{2, 3}, SZ: []int{2}}.list()), noop),
 				Bound: "every graph built by <=2 operations from {gadget insertion, edge between existing nodes} x {greedy,dfs} x {ns,lp} x {sink,valign,ns,bk} x {polyline,ortho}"},
 			{Name: "seeds", Space: spaceSeeded(seedWitnesses, tierPick(tier, 1, 2)), Eval: stdEval("C01", staticGrid(gridSpec{P1: allP1, P2: allP2, P4: []int{0, 1, 3, 4}, P5: []int{2, 3}, SZ: []int{1, 2}}.list()), noop),
